@@ -49,6 +49,16 @@ def _unwrap(r):
     return r.v if isinstance(r, Just) else r
 
 
+class ArithVal:
+    """Result of arithmetic on symbolic inputs when the rule supplies an 'arith' hook: only its sign (scripted by the rule) can be observed."""
+
+    def __init__(self, node=None):
+        self.node = node
+
+    def __repr__(self):
+        return 'ARITH'
+
+
 class AxisMismatch(Exception):
     def __init__(self, a, b, node):
         self.a, self.b, self.node = a, b, node
@@ -219,6 +229,14 @@ class Interp:
                 return (a in b) == isinstance(op, ast.In)
             except TypeError:
                 return OPQ
+        if isinstance(a, ArithVal) or isinstance(b, ArithVal):
+            h = self.hooks.get('arith_sign')
+            other = b if isinstance(a, ArithVal) else a
+            if h is None or not (isinstance(other, (int, float)) and other == 0):
+                raise NotComparisonOnly(f'arithmetic result compared with something else than 0: {ast.unparse(node)}')
+            sgn = h(self, node)
+            x, y = (sgn, 0) if isinstance(a, ArithVal) else (0, sgn)
+            return {ast.Lt: x < y, ast.LtE: x <= y, ast.Gt: x > y, ast.GtE: x >= y, ast.Eq: x == y, ast.NotEq: x != y}[type(op)]
         sa, sb = isinstance(a, Sym), isinstance(b, Sym)
         if sa or sb:
             self.compares += 1
@@ -291,7 +309,9 @@ class Interp:
                 if isinstance(a, Sym) or isinstance(b, Sym):
                     raise NotComparisonOnly(ast.unparse(e))
                 return (bool(a) or bool(b)) if isinstance(e.op, ast.BitOr) else (bool(a) and bool(b))
-            if isinstance(a, Sym) or isinstance(b, Sym):
+            if isinstance(a, (Sym, ArithVal)) or isinstance(b, (Sym, ArithVal)):
+                if self.hooks.get('arith_sign') is not None and isinstance(e.op, (ast.Add, ast.Sub, ast.Mult, ast.Div)):
+                    return ArithVal(e)
                 raise NotComparisonOnly(f'arithmetic on a symbolic input: {ast.unparse(e)}')
             if a is OPQ or b is OPQ:
                 return OPQ
